@@ -3,8 +3,8 @@
   (`Gotree.C06.removeTip`, `removeTips`, `removeTipsPinned`, `PruneFlags.names`).
 -/
 import Gotree.Lemmas.C06Flag
-import Gotree.Gen.C06Sites
 import Gotree.Lemmas.C06Index
+import Gotree.Lemmas.C06Stale
 
 namespace Gotree.C06
 open Gotree Gotree.C14
@@ -593,6 +593,71 @@ theorem removeTips_bitsetsOK (t : T) (S : List String) (rev : Bool) (t' : T) (ix
   cases hr
   exact rows_bitsetsOK t' ix h2
 
+/- ## histories on one in-memory tree (`C06.stale`, `Model/C06Stale.lean`) -/
+
+/-- Index built, the tip `a` renamed `b` behind its back (`SetName`), then `RemoveTips`: the call sees the tree
+    as it is.  The tips are the old ones with `b` for `a`; the old name `a`, still a key of the stale index, is
+    no tip name any more and is IGNORED (`removeTips rev (a :: S) = removeTips rev S`), the new name `b`, unknown to
+    the stale index, designates the tip.  (Seeded C06-7 took the tips from the index: `a` removed the tip.) -/
+theorem stale_rename (t : T) (a b : String) (ha : a ∈ t.tipNames) (hb : b ∉ t.tipNames) :
+    ∃ t₁, applyEdits [.rename a b] t = some t₁ ∧
+      t₁.tipNames = t.tipNames.map (fun n => if n == a then b else n) ∧
+      a ∉ t₁.tipNames ∧ b ∈ t₁.tipNames ∧
+      (∀ S rev, staleRemove [.rename a b] rev (a :: S) t = some (removeTips rev S t₁)) ∧
+      (∀ S rev, staleRemove [.rename a b] rev S t = some (removeTips rev S t₁)) := by
+  have hab : a ≠ b := fun e => hb (e ▸ ha)
+  have happ : applyEdits [.rename a b] t = some (mapTips (fun n => if n == a then b else n) t) := by
+    simp [applyEdits, applyEdit, ha]
+  have hna : a ∉ (mapTips (fun n => if n == a then b else n) t).tipNames := by
+    rw [tipNames_mapTips]
+    intro h
+    obtain ⟨n, hn, e⟩ := List.mem_map.1 h
+    by_cases hna : n = a
+    · subst hna
+      have e' : b = n := by simpa using e
+      exact hab e'.symm
+    · have e' : n = a := by simpa [hna] using e
+      exact hna e'
+  refine ⟨_, happ, tipNames_mapTips _ t, hna, ?_, ?_, ?_⟩
+  · rw [tipNames_mapTips]
+    exact List.mem_map.2 ⟨a, ha, by simp⟩
+  · intro S rev
+    unfold staleRemove
+    rw [happ]
+    change some (removeTips rev (a :: S) _) = _
+    rw [removeTips_ignores_absent _ S rev a hna]
+  · intro S rev
+    unfold staleRemove
+    rw [happ]
+    rfl
+
+example : t0.tipNames = ["a", "b", "c", "d", "e"] ∧ "z" ∉ t0.tipNames := by decide
+
+/-- `TipNode` after pruning (model `tipNodeOf`): for every name the new index answers, the node returned carries
+    that name, has one neighbour and stands in `Tips()` of the pruned tree at the reported position; for any
+    other name there is no answer.  The answers satisfy the predicate the oracle applies to the raw answers of
+    the implementation (`Spec.tipNodesOK`). -/
+theorem removeTips_tipNode (t : T) (S : List String) (rev : Bool) (t' : T) (ix : Index)
+    (h : removeTips rev S t = .ok (t', ix)) :
+    (∀ q, q ∈ t'.tipNames → ∃ pos, tipNodeOf ix t' q = some (q, 1, pos) ∧ t'.tipNames[pos]? = some q) ∧
+    (∀ q, q ∉ t'.tipNames → tipNodeOf ix t' q = none) ∧
+    tipNodesOK t' ix ix (ix.map fun _ => (1 : Int)) (ix.map fun q => Int.ofNat (t'.tipNames.idxOf q)) = true := by
+  obtain ⟨_, _, hmem⟩ := removeTips_bitsets t S rev t' ix h
+  refine ⟨fun q hq => ⟨t'.tipNames.idxOf q, ?_, ?_⟩, fun q hq => ?_, ?_⟩
+  · have : q ∈ ix := (hmem q).2 hq
+    simp [tipNodeOf, this]
+  · have hlt : t'.tipNames.idxOf q < t'.tipNames.length := List.idxOf_lt_length_of_mem hq
+    rw [List.getElem?_eq_getElem hlt, List.getElem_idxOf]
+  · have : q ∉ ix := fun hq' => hq ((hmem q).1 hq')
+    simp [tipNodeOf, this]
+  · unfold tipNodesOK
+    simp only [beq_self_eq_true, List.length_map, Bool.true_and]
+    rw [zip_map_all, List.all_eq_true]
+    intro q hq
+    have hq' : q ∈ t'.tipNames := (hmem q).1 hq
+    have hlt : t'.tipNames.idxOf q < t'.tipNames.length := List.idxOf_lt_length_of_mem hq'
+    simp [List.getElem?_eq_getElem hlt, List.getElem_idxOf]
+
 /-- `t0` minus `a` is `(c,d,e,b)`; against the new index `[b,c,d,e]` the four tip branches, in `Edges()` order,
     carry one bit each -/
 example :
@@ -613,60 +678,5 @@ theorem removeTips_bitsets_swapped_fails :
          [false, false, false, true, false], [false, false, false, false, true], [false, true, false, false, false]] &&
        bitsetsAfterSwapped ["a", "b", "c", "d", "e"] t' != bitsets ["b", "c", "d", "e"] t'
      | .error _ => false) = true := by decide
-
-/- ## the table regenerated from the source (`Gotree/Gen/C06Sites.lean`, harness/c06/extract.go) -/
-
-open Sites Gen.C06Sites in
-/-- `RemoveTips` in the source: `rooted := t.Rooted()` before the loop, the loop over `t.Tips()` with the
-    "is not a tip" guard, one selection condition (its VALUE is `sites_select`), `removeTip(tip, rooted)`, and after the loop
-    `UpdateTipIndex()` BEFORE `ReinitInternalIndexes()` — what `removeTips` / `removeLoopR` / `workList` assume. -/
-theorem sites_removeTips_check :
-    rtPre = expRtPre ∧ rtRange = expRtRange ∧ rtGuards = expRtGuards ∧ rtSelect.length = 1 ∧
-    rtCallArgs = expRtCallArgs ∧ rtPost = expRtPost := by decide +kernel
-
-open Sites Gen.C06Sites in
-/-- `removeTip` in the source: the five top-level tests (case 2 with the rooted-root exception), the chain loop of
-    case 1, the length and support given to the merged branch, who is connected below whom, the new root —
-    what `finishNode`, `rootAfterLoss`, `removeTipR` and `fuseEdge` assume. -/
-theorem sites_removeTip_check :
-    tipIfs = expTipIfs ∧ tipChain = expTipChain ∧ tipSetLength = expSetLength ∧ tipSetSupport = expSetSupport ∧
-    tipConnectNodes = expConnect ∧ tipSetRoot = expSetRoot := by decide +kernel
-
-open Sites Gen.C06Sites in
-/-- the sentinels of tree/edge.go are `-1`, the model's `NIL` -/
-theorem sites_consts_check :
-    (["NIL_SUPPORT", "NIL_LENGTH"].all fun n => (consts.lookup n).bind litRat? == some NIL) = true := by
-  decide +kernel
-
-open Sites Gen.C06Sites in
-/-- cmd/prune.go in the source: the reads before the loop, the chain choosing the names, the loop body (a failure
-    stops the command, the result is written at once), the flags with their defaults, `specificTips`. -/
-theorem sites_prune_check :
-    pruneReads = expPruneReads ∧ pruneRange = expPruneRange ∧ pruneChain = expPruneChain ∧
-    pruneBody = expPruneBody ∧ pruneFlags = expPruneFlags ∧
-    specParams = expSpecParams ∧ specRanges = expSpecRanges ∧ specConds = expSpecConds := by decide +kernel
-
-open Sites in
-/-- The selection condition FOUND IN THE SOURCE, evaluated: a tip is removed iff `(its name is listed) ≠ revert`,
-    which is the decision `workList` / `toRemove` take and the complement of `kept`. -/
-theorem sites_select (revert ok : Bool) :
-    Gen.C06Sites.rtSelect.map (Ex.eval (ρSelect revert ok)) = [some (ok != revert)] := by
-  cases revert <;> cases ok <;> decide +kernel
-
-open Sites in
-/-- The chain FOUND IN THE SOURCE, evaluated on the flags: the call it reaches is the one of the model's
-    `PruneFlags.source` (priority -f > -c > --random > arguments). -/
-theorem sites_source (f : PruneFlags) :
-    pick (ρFlags f.tipfile.isSome f.comp.isSome (decide (f.random > 0))) Gen.C06Sites.pruneChain =
-      some (callOf f.source) := by
-  have key : ∀ a b c : Bool, pick (ρFlags a b c) Gen.C06Sites.pruneChain =
-      some (callOf (if a then .file else if b then .comp else if c then .random else .args)) := by
-    decide +kernel
-  rw [key]
-  unfold PruneFlags.source
-  cases f.tipfile.isSome <;> cases f.comp.isSome <;> by_cases h : f.random > 0 <;> simp [h]
-
-example : (⟨none, some t0, 3, ["a"], true⟩ : PruneFlags).source = .comp := by decide
-
 
 end Gotree.C06
